@@ -327,6 +327,21 @@ def scan_determinism(ctx, n):
                 p = d.joinpath(*x.split("."))
                 p.parent.mkdir(parents=True, exist_ok=True)
                 p.with_suffix(".py").write_text("".join(f"import {b}\n" for a, b in edges if a == x))
+            # now and then a package that is also reachable under a second name (a symbolic link next to it)
+            inner_dirs = sorted(x for x in inner if x != "r")
+            if inner_dirs and rng.random() < 0.4:
+                tdir = rng.choice(inner_dirs)
+                link = d.joinpath(*tdir.split(".")[:-1], tdir.split(".")[-1] + "_l")
+                if not link.exists():
+                    os.symlink(tdir.split(".")[-1], link)
+                    ctx.stat("scan_trees_with_a_symlinked_package")
+                    # the linked package exists a second time, under the link's name
+                    lname = tdir + "_l"
+                    copies = {x: lname + x[len(tdir):] for x in nodes if x == tdir or x.startswith(tdir + ".")}
+                    nodes = sorted(set(nodes) | set(copies.values()))
+                    inner = inner | {copies[x] for x in copies if x in inner}
+                    leaves = [x for x in nodes if x not in inner]
+                    edges = edges + [(copies[a], b) for a, b in edges if a in copies]
             rp = str(d / "r")
             excl = tuple(rng.sample(["*" + leaves[0].split(".")[-1] + "*", "*zz*", "*__pycache__*", "*" + nodes[-1].split(".")[-1] + ".py"], 3))
             base = snapshot(get_evaluable_architecture(rp, rp, exclusions=excl))
